@@ -96,6 +96,7 @@ class Translated:
     decorated: bool
     njit: bool
     fi: FunctionInfo
+    kind: str = "scalar"
 
 
 class MetricTranslator:
@@ -128,22 +129,38 @@ class MetricTranslator:
         return any(d.split("(")[0].split(".")[-1] in ("njit", "jit") for d in fi.decorators)
 
     # -- translation --------------------------------------------------------------------
-    def translate(self, fname: str, ops: Ops, depth: int = 0) -> Translated:
+    def translate(self, fname: str, ops: Ops, depth: int = 0, args=None) -> Translated:
+        """args: the (kind, expr) values of the parameters; None = the registry call f(x, y)."""
         if fname not in self.mi.functions:
             raise AnalysisError(f"metric function {fname} not found in distance.py")
         fi = self.mi.functions[fname]
         params = fi.params
-        if len(params) < 2:
-            raise AnalysisError(f"{fname}: expected (x, y) parameters")
-        env: Dict[str, Tuple[str, object]] = {params[0]: ("vec", ops.X), params[1]: ("vec", ops.Y)}
+        env: Dict[str, Tuple[str, object]] = {}
         a = fi.node.args
         for p, d in zip(reversed(a.args), reversed(a.defaults)):
             env[p.arg] = ("scalar", self._const(d))
+        if args is None:
+            if len(params) < 2:
+                raise AnalysisError(f"{fname}: expected (x, y) parameters")
+            env[params[0]] = ("vec", ops.X)
+            env[params[1]] = ("vec", ops.Y)
+        else:
+            if len(args) > len(params):
+                raise AnalysisError(f"{fname}: called with too many arguments")
+            if self.decorated(fi):
+                raise AnalysisError(f"{fname}: a shifted (decorated) metric is called from inside another metric")
+            for p, v in zip(params, args):
+                env[p] = v
+        missing = [p for p in params if p not in env]
+        if missing:
+            raise AnalysisError(f"{fname}: parameters {missing} are not bound")
         obl: List[Obligation] = []
         ret = self._block(fi.node.body, env, ops, obl, fi, depth)
         if ret is None:
             raise AnalysisError(f"{fname}: no return value found")
-        return Translated(fname, ret[1], obl, self.decorated(fi), self.is_njit(fi), fi)
+        t = Translated(fname, ret[1], obl, self.decorated(fi), self.is_njit(fi), fi)
+        t.kind = ret[0]
+        return t
 
     def _const(self, node):
         if isinstance(node, ast.Constant) and isinstance(node.value, (int, float)):
@@ -355,14 +372,12 @@ class MetricTranslator:
                 kind = "vec" if "vec" in (args[0][0], args[1][0]) else "scalar"
                 fn = sp.Min if f in ("np.minimum", "min") else sp.Max
                 return (kind, fn(args[0][1], args[1][1]))
-            if f in self.mi.functions and f.endswith("_distance") and len(args) == 2:
-                if depth > 3:
+            if f in self.mi.functions:
+                if depth > 4:
                     raise AnalysisError(f"{fi.name}: metric call chain too deep")
-                if not (args[0][1] == ops.X and args[1][1] == ops.Y):
-                    raise AnalysisError(f"{fi.name}: inner metric called on something other than (x, y)")
-                inner = self.translate(f, ops, depth + 1)
+                inner = self.translate(f, ops, depth + 1, args=args)
                 obl.extend(inner.obligations)
-                return ("scalar", inner.expr)
+                return (inner.kind, inner.expr)
             raise AnalysisError(f"{fi.name}:{line}: call {f}(...) outside the metric whitelist")
         raise AnalysisError(f"{fi.name}:{line}: expression outside the metric whitelist: {unparse(node)[:80]}")
 
